@@ -64,6 +64,13 @@ def _spec(draw, tier):
         # a deletion right after its insertion is the pattern "deletions undo their insertions"
         if op["op"] == "insert" and draw(st.integers(0, 3)) == 0:
             oplist.append({"op": "delete_channel", "mech": op["mech"], "rows": op["rows"], "pick": 0.0, "same_as_insert": True})
+        # two mechanisms that share a column (vt, eK, eCa): a partial deletion of one of them must blank exactly its
+        # own columns where the other one stays, and keep the shared column there
+        partner = {"Na": "K", "K": "Km", "Km": "K", "CaL": "CaT", "CaT": "CaL"}.get(op.get("mech")) if op["op"] == "insert" else None
+        if partner and draw(st.integers(0, 3)) == 0:
+            oplist.append({"op": "insert", "mech": partner, "rows": draw(st.sampled_from(["all", op["rows"]]))})
+            oplist.append({"op": "delete_channel", "mech": draw(st.sampled_from([partner, op["mech"]])), "exact": True,
+                           "rows": draw(st.lists(fl(0.0, 0.999), min_size=1, max_size=2)), "pick": 0.0})
         # a second insertion of the same mechanism elsewhere must leave the customised first one alone
         if op["op"] == "insert" and draw(st.integers(0, 3)) == 0:
             oplist.append({"op": "set", "key": draw(st.sampled_from(["chan_param", "chan_state"])), "mech": op["mech"], "rows": op["rows"],
